@@ -155,40 +155,38 @@ theorem kind_ids (v6 : Bool) (ty : Nat) (h : kindOf v6 ty = some .numeric ∨ ki
         · omega
         · simp at h
 
-/-! ### `Flow.add` keeps everything when the prefixes are of one family -/
+/-! ### `Flow.settle_family`: the family of good text is the family of its prefixes -/
 
-theorem exaAdd_same_family (b : Bool) (cs kept : List TComp) (v : Bool)
-    (h : ∀ c ∈ kept ++ cs, c.isPrefix = true → c.isV6 = b) :
-    exaAdd v kept cs = (v || cs.any (fun c => c.isV6), kept ++ cs) := by
-  induction cs generalizing kept v with
-  | nil => simp [exaAdd]
-  | cons c cs ih =>
-    have hrec : ∀ v', exaAdd v' (kept ++ [c]) cs = (v' || cs.any (fun c => c.isV6), (kept ++ [c]) ++ cs) := by
-      intro v'
-      apply ih
-      intro x hx
-      apply h x
-      simpa using hx
-    simp only [exaAdd]
-    by_cases hp : c.isPrefix = true
-    · simp only [hp, if_true]
-      split
-      · rename_i p hp'
-        have hpm : p ∈ kept := by
-          have := List.mem_of_mem_head? hp'
-          exact (List.mem_filter.1 this).1
-        have hpp : p.isPrefix = true := by
-          have := List.mem_of_mem_head? hp'
-          have := (List.mem_filter.1 this).2
-          simp only [Bool.and_eq_true] at this
-          exact this.1
-        have e1 : p.isV6 = b := h p (by simp [hpm]) hpp
-        have e2 : c.isV6 = b := h c (by simp) hp
-        simp only [e1, e2, bne_self_eq_false, Bool.false_eq_true, if_false]
-        rw [hrec]; simp [Bool.or_assoc, e2]
-      · rw [hrec]; simp [Bool.or_assoc]
-    · have hv : c.isV6 = false := by cases c <;> simp_all [TComp.isPrefix, TComp.isV6]
-      simp only [hp, Bool.false_eq_true, if_false]
-      rw [hrec]; simp [hv]
+theorem exaFamily_good (v6 hint6 : Bool) (text : List TComp) (h : ∀ c ∈ text, GoodTComp v6 c)
+    (hp : text.any (fun c => c.isPrefix) = true) : exaFamily hint6 text = v6 := by
+  simp only [exaFamily]
+  split
+  · rename_i p hp'
+    have hm := List.mem_of_mem_head? hp'
+    have hmem : p ∈ text ∧ p.isPrefix = true := by
+      rcases List.mem_append.1 hm with h' | h' <;>
+        (have := List.mem_filter.1 h'; simp only [Bool.and_eq_true] at this; exact ⟨this.1, this.2.1⟩)
+    have hg := h p hmem.1
+    cases p with
+    | prefix4 _ _ _ => obtain ⟨hv, _⟩ := hg; simp [TComp.isV6, hv]
+    | prefix6 _ _ _ _ => obtain ⟨hv, _⟩ := hg; simp [TComp.isV6, hv]
+    | op _ _ _ => simp [TComp.isPrefix] at hmem
+  · rename_i hnone
+    exfalso
+    obtain ⟨c, hc, hcp⟩ := List.any_eq_true.1 hp
+    have hg := h c hc
+    have hty : c.ty = 1 ∨ c.ty = 2 := by
+      cases c with
+      | prefix4 _ _ _ => exact hg.2.1
+      | prefix6 _ _ _ _ => exact hg.2.1
+      | op _ _ _ => simp [TComp.isPrefix] at hcp
+    have : c ∈ text.filter (fun c => c.isPrefix && c.ty == 1) ++ text.filter (fun c => c.isPrefix && c.ty == 2) := by
+      rcases hty with e | e
+      · exact List.mem_append_left _ (List.mem_filter.2 ⟨hc, by simp [hcp, e]⟩)
+      · exact List.mem_append_right _ (List.mem_filter.2 ⟨hc, by simp [hcp, e]⟩)
+    have hne := List.ne_nil_of_mem this
+    cases hl : text.filter (fun c => c.isPrefix && c.ty == 1) ++ text.filter (fun c => c.isPrefix && c.ty == 2) with
+    | nil => exact hne hl
+    | cons a t => rw [hl] at hnone; simp at hnone
 
 end Exa.Flow
